@@ -135,3 +135,26 @@ Print Assumptions C06_chunk_readers.
    chunk_bound_would_reject (the same loop bounded by the first chunk rejects AC | 02).  The message-level decoders over
    non-contiguous buffers are exercised on every run (pv-gen-pb / pv-harness-pb: every decode entry point over two-chunk
    cuts, Buf::chain, small pieces and a wrapped VecDeque<u8>, answers compared with the contiguous one). *)
+
+(* the defaults the reference decoder (Spec.v spec_decode_msg) and the relation of conforming encodings (Conform.v) start
+   from are the model's default_scalar / default_msg / default_ty; Spec.v states the guide's defaults on its own
+   (spec_default_*: 0 / false / empty string / empty bytes / first enum value; optional unset; repeated and maps empty; a bare
+   message field holds the message with all fields at their defaults) and they are the same -- for every declared type,
+   every schema, every message, every fuel.  A wrong default in the model breaks this proof. *)
+Theorem C06_defaults_spec :
+  (forall p, spec_default_scalar p = default_scalar p) /\
+  (forall d sc i, spec_default_msg d sc i = default_msg d sc i) /\
+  (forall d sc t, match t with TScalar p => spec_default_scalar p | TMsg j => spec_default_msg d sc j end = default_ty d sc t).
+Proof. exact defaults_spec. Qed.
+Print Assumptions C06_defaults_spec.
+
+(* F-06b: REFUTED without [lossless] -- pilota's bytes for map<int32, double> { 5: -0.0 } (feature off) mean { 5: +0.0 } to the
+   reference decoder; F-06c: the same for the f32 / f64 wrappers is C05_wrapper_negzero_refuted (the bytes are empty) *)
+Theorem C06_out_negzero_refuted :
+  let sc := [[FMap 1 TYPE_INT32 (TScalar TYPE_DOUBLE)]] in
+  let v := VL NMsg [VL NMap [VL NPair [VI 5; VI 9223372036854775808]]] in
+  schema_ok sc = true /\ wt_msg 1 sc 0 v = true /\
+  spec_decode_msg sc 0 (enc_msg false 1 sc 0 v) = Some (VL NMsg [VL NMap [VL NPair [VI 5; VI 0]]]) /\
+  spec_decode_msg sc 0 (enc_msg true 1 sc 0 v) = Some v.
+Proof. exact spec_out_negzero_refuted. Qed.
+Print Assumptions C06_out_negzero_refuted.
